@@ -161,6 +161,15 @@ void Simplex::fireParameterChanged(const ParameterList& parameters)
       th *= valpha_[i];
       vProb_[i + 1] = th;
       x += vProb_[i + 1];
+      if (th > 1e100) // rescale: the running product must not overflow
+      {
+        for (unsigned int k = 0; k <= i + 1; k++)
+        {
+          vProb_[k] /= th;
+        }
+        x /= th;
+        th = 1;
+      }
     }
 
     if (x > NumConstants::TINY()) // avoid rounding pb
